@@ -110,7 +110,7 @@ Qed.
 
 (* ---------- the fields that say who owns a library-created descriptor ---------- *)
 Definition owners (s : core) :=
-  (epfd s, tfd s, is_epoll s, rw_reg s, rw_rfd s, rw_wfd s, (active_fd s, active_wr s, active_ref s)).
+  (epfd s, tfd s, method s, rw_reg s, rw_rfd s, rw_wfd s, (active_fd s, active_wr s, active_ref s)).
 
 Record OF (s s' : core) : Prop := { of_k : KO (kern s) (kern s'); of_own : owners s' = owners s }.
 
